@@ -996,6 +996,18 @@ impl Driver {
                 const_generics.push((c.ident.to_string(), self.conv(&c.ty, &gens, st, None)?));
             }
         }
+        if let Some(g) = ff.impl_generics {
+            // const generics of the impl that the body mentions
+            let mut ids = BTreeSet::new();
+            idents_of(quote::ToTokens::to_token_stream(ff.block), &mut ids);
+            for p in g.params.iter() {
+                if let GenericParam::Const(c) = p {
+                    if ids.contains(&c.ident.to_string()) {
+                        const_generics.push((c.ident.to_string(), self.conv(&c.ty, &gens, st, None)?));
+                    }
+                }
+            }
+        }
         let impl_args: Vec<String> = match ff.impl_self.map(strip_group) {
             Some(Type::Path(tp)) => match &tp.path.segments.last().unwrap().arguments {
                 PathArguments::AngleBracketed(a) => a.args.iter().map(|g| tokens_nospace(g)).collect(),
@@ -1022,6 +1034,51 @@ impl Driver {
             }
             let mut v = V { gens: &gens, found: vec![] };
             syn::visit::Visit::visit_block(&mut v, ff.block);
+            // `param.method(..)` where the parameter's type is a generic type parameter (or a reference to one)
+            {
+                let mut ptys: BTreeMap<String, String> = BTreeMap::new();
+                for a in ff.sig.inputs.iter() {
+                    if let FnArg::Typed(pt) = a {
+                        let mut t: &Type = &pt.ty;
+                        while let Type::Reference(r) = t {
+                            t = &r.elem;
+                        }
+                        if let (Pat::Ident(pi), Type::Path(tp)) = (&*pt.pat, t) {
+                            if let Some(id) = tp.path.get_ident() {
+                                if gens.contains(&id.to_string()) && !inst_map.contains_key(&id.to_string()) {
+                                    ptys.insert(pi.ident.to_string(), id.to_string());
+                                }
+                            }
+                        }
+                    }
+                }
+                struct M<'g> {
+                    ptys: &'g BTreeMap<String, String>,
+                    found: Vec<String>,
+                }
+                impl<'ast, 'g> syn::visit::Visit<'ast> for M<'g> {
+                    fn visit_expr_method_call(&mut self, m: &'ast ExprMethodCall) {
+                        if let Expr::Path(p) = &*m.receiver {
+                            if let Some(id) = p.path.get_ident() {
+                                if let Some(g) = self.ptys.get(&id.to_string()) {
+                                    let k = format!("{}::{}", g, m.method);
+                                    if !self.found.contains(&k) {
+                                        self.found.push(k);
+                                    }
+                                }
+                            }
+                        }
+                        syn::visit::visit_expr_method_call(self, m);
+                    }
+                }
+                let mut mv = M { ptys: &ptys, found: vec![] };
+                syn::visit::Visit::visit_block(&mut mv, ff.block);
+                for k in mv.found {
+                    if !v.found.contains(&k) {
+                        v.found.push(k);
+                    }
+                }
+            }
             // `callee::<A, B>(..)` where the callee abstracts `R::CONST`: the caller needs `A::CONST` when A is generic here
             {
                 struct C<'g> {
